@@ -301,6 +301,7 @@ func famC01(r *Run) {
 	famLongChains(r)
 	famPipeJSONStrings(r)
 	famCaseTwins(r)
+	famMultiRawTargeted(r)
 }
 
 // ---- C02: projections ----
